@@ -4,7 +4,7 @@ from graphlib import TopologicalSorter
 from typing import get_args, get_origin
 
 from . import _verif
-from .utils import UnionTypes
+from .utils import UnionTypes, subtler_type
 
 
 class Order(Enum):
@@ -184,6 +184,18 @@ def subclasscheck(t1, t2):
             return issubclass(t1, t2)
         except TypeError:
             return False
+
+
+def instancecheck(obj, t):
+    """Check whether obj is an "instance" of t.
+
+    Like isinstance, except that it also works for type[A] and other
+    parametrized generics, which isinstance refuses: these are compared like
+    the dispatch does.
+    """
+    if not isinstance(t, type) and get_origin(t) is not None:
+        return subclasscheck(subtler_type(obj), t)
+    return isinstance(obj, t)
 
 
 def sort_types(cls, avail):
